@@ -356,6 +356,8 @@ let handle (fields : string list) : string * string =
       | None ->
         if List.exists (fun e -> match e with Dial (h, _) -> not (List.mem h requested) | _ -> false) ievs
         then "fail:connected-to-a-host-other-than-the-requested-one"
+        else if List.exists (fun e -> match e with AskHost (h, _) -> not (List.mem h requested) | _ -> false) ievs
+        then "fail:checked-value-is-not-the-value-the-client-sent"
         else if List.exists (fun e -> match e with AskHost (h, ok) -> ok <> spec h | _ -> false) ievs
         then "fail:policy-decision-differs-from-specification"
         else if List.exists (fun e -> match e with Dial (h, _) -> not (spec h) | _ -> false) ievs
